@@ -111,6 +111,15 @@ Ok (VTuple [N2; (VInt (-1))]).
 (* site fact site_td_shortcut: `builtins.any((dim == 0 for dim in chain(newshape_a, newshape_b)))` present in sparse/numba_backend/_common.py:tensordot *)
 Definition site_td_shortcut : bool := true.
 
+(* fragment sv_dot_1d_shape_check from sparse/numba_backend/_common.py:dot selector=None srchash=76a9acbb66603ce4 *)
+Definition sv_dot_1d_shape_check (sa : pyv) (sb : pyv) : res pyv :=
+t1_ <- ext_shape_ne sa sb ;;
+if cond t1_ then (
+Raise ValueError
+) else (
+Ok VNone
+).
+
 (* fragment sv_dcn_outer_test from sparse/numba_backend/_common.py:_dot_coo_ndarray selector=None srchash=638841bb10b30445 *)
 Definition sv_dcn_outer_test (didx1 : pyv) (n : pyv) (ncols : pyv) : res pyv :=
 (t2_ <- (t3_ <- Ok n ;; py_lt didx1 t3_) ;; if cond t2_ then (t1_ <- Ok ncols ;; py_gt t1_ (VInt (0))) else Ok t2_).
